@@ -89,6 +89,14 @@ def config_level(ctx, alg, iso, cfg, name, blades):
             continue
         x = ops.value_mv(alg, (alg.canon2bin[alg.bin2canon[1]],), {1: 3})
         st, out = ctx.guarded(20, ops.call_op, alg, op, x)
+        if degenerate and op == 'polarity':
+            # history: the same request again, through another entry point and another key pattern
+            for again in (lambda: x.dual(kind='polarity'), lambda: alg.polarity(ops.value_mv(alg, (0, 1), {0: 2, 1: 5})), lambda: x.polarity()):
+                st_b, out_b = ctx.guarded(20, again)
+                ctx.count('polarity_raises_degenerate')
+                if not (st_b == 'exc' and isinstance(out_b, ZeroDivisionError)):
+                    ctx.violation('polarity did not raise ZeroDivisionError on a repeated request in a degenerate algebra', cid + ['again'], config=cfg,
+                                  got=repr(out_b) if st_b == 'exc' else show_elem(mv_dict(out_b)))
         if st == 'timeout':
             continue
         ctx.case(cid)
